@@ -310,6 +310,18 @@ def thread_fn(R, f):
     tl = [e for e in f.all_events() if e.kind == "access" and e.node["k"] == "var" and e.node["n"] == "tl_wrapper" and e.mode == "w"]
     R.check(any(ev_dominates(f, t, fc, dom) for t in tl), "THREAD-FN", "tl-wrapper-set-before-func", where(f, fc), "tl_wrapper published before the user function runs",
             "tl_wrapper is not set before the user function: at-exit registration from the thread fails")
+    for t in tl:
+        if not ev_dominates(f, t, fc, dom):
+            continue
+        asg = None
+        for b in f.blocks.values():
+            for el in b.elems:
+                for n in f.walk(el):
+                    if n["k"] == "bin" and n["op"] == "=" and f.d(n["a"][0]) is t.node:
+                        asg = n
+        rhs = f.show(asg["a"][1]) if asg else None
+        R.check(rhs == "&" + str(copy), "THREAD-FN", "registrations-land-where-the-chain-is-read", where(f, t), "tl_wrapper = &%s, the object whose at-exit chain the thread runs" % copy,
+                "tl_wrapper is set to %s but the at-exit chain is run from %s.atexit: callbacks registered by the thread are never run and their nodes leak" % (rhs, copy))
     # at-exit chain: head read from the local copy after func returned
     heads = [e for e in f.field_accesses(rec="thread_wrapper", field="atexit", modes=("r",))]
     R.require(len(heads) >= 1, "thread_fn: read of wrapper.atexit not found")
@@ -441,6 +453,7 @@ def launch(R, f):
 
 
 MUTANTS = [
+    {"name": "tl-wrapper-points-at-heap-copy", "file": TH, "expect": "THREAD-FN", "old": "    tl_wrapper = &wrapper;", "new": "    tl_wrapper = wrapper_ptr;"},
     {"name": "count-read-unlocked", "file": SH, "expect": "LOCK",
      "old": "    aws_mutex_lock(&s_managed_thread_lock);\n    thread_count = s_unjoined_thread_count;\n    aws_mutex_unlock(&s_managed_thread_lock);",
      "new": "    thread_count = s_unjoined_thread_count;"},
